@@ -17,7 +17,7 @@ import (
 )
 
 func TestVerif_C14_DefaultParameters(t *testing.T) {
-	rep := verifNewReport(t, "TestVerif_C14_DefaultParameters",
+	rep := verifJlsNewReport(t, "TestVerif_C14_DefaultParameters",
 		"ComputeCodingParameters(2^P-1, NEAR, 64) vs independent T.87 formulas (RANGE, qbpp, LIMIT of A.2.1; default T1,T2,T3 of C.2.4.1.1.1 with the standard's CLAMP); every P in 2..16 x every NEAR in 0..min(255,MAXVAL/2)")
 	var perP [17]int
 	firstNear := map[int]int{}
@@ -77,7 +77,7 @@ func verifC14Compare(stream []byte, src []int, w, h, c, p, near int, libDec func
 			parts = append(parts, fmt.Sprintf("independent_header=%dx%dx%d/P%d/NEAR%d", ind.W, ind.H, ind.NC, ind.P, ind.Near))
 		}
 		if src != nil {
-			if i := verifFirstDiff(src, ind.Samples); i >= 0 {
+			if i := verifJlsFirstDiff(src, ind.Samples); i >= 0 {
 				parts = append(parts, fmt.Sprintf("independent_vs_source_first_diff=%d(src=%d,ind=%d)", i, src[i], ind.Samples[i]))
 			}
 		}
@@ -85,7 +85,7 @@ func verifC14Compare(stream []byte, src []int, w, h, c, p, near int, libDec func
 	if lerr != "" {
 		parts = append(parts, "library_"+lerr)
 	} else if ierr == nil {
-		if i := verifFirstDiff(lib, ind.Samples); i >= 0 {
+		if i := verifJlsFirstDiff(lib, ind.Samples); i >= 0 {
 			parts = append(parts, fmt.Sprintf("independent_vs_library_first_diff=%d(lib=%d,ind=%d)", i, lib[i], ind.Samples[i]))
 		}
 	}
@@ -106,7 +106,7 @@ func verifC14LosslessLibDec(w, h, c, p int) func([]byte) ([]int, string) {
 		if dw != w || dh != h || dc != c || dp != p {
 			return nil, fmt.Sprintf("geometry=%dx%dx%d/P%d", dw, dh, dc, dp)
 		}
-		got, ok := verifUnpack(out, p, w*h*c)
+		got, ok := verifJlsUnpack(out, p, w*h*c)
 		if !ok {
 			return nil, fmt.Sprintf("decoded_len=%d", len(out))
 		}
@@ -118,7 +118,7 @@ func TestVerif_C14_IndependentDecoderLossless(t *testing.T) {
 	type size struct{ w, h int }
 	sizes := []size{{1, 1}, {2, 2}, {4, 3}, {9, 7}, {16, 16}, {33, 5}, {1, 17}, {40, 40}}
 	reps := 2
-	if verifThorough() {
+	if verifJlsThorough() {
 		sizes = append(sizes, size{64, 64}, size{300, 3}, size{128, 40})
 		reps = 10
 	}
@@ -126,17 +126,17 @@ func TestVerif_C14_IndependentDecoderLossless(t *testing.T) {
 	for _, s := range sizes {
 		sz = append(sz, fmt.Sprintf("%dx%d", s.w, s.h))
 	}
-	rep := verifNewReport(t, "TestVerif_C14_IndependentDecoderLossless", fmt.Sprintf(
+	rep := verifJlsNewReport(t, "TestVerif_C14_IndependentDecoderLossless", fmt.Sprintf(
 		"stream=lossless.Encode(img); independent T.87 decoder(stream)==img and ==lossless.Decode(stream); P in 2..16 x components {1 (ILV=0),3 (ILV=2)} x WxH {%s} x contents {%s} x %d seeded variants (seed %d)",
-		strings.Join(sz, ","), strings.Join(verifContentKinds, ","), reps, verifSeed()))
-	var pp verifPerP
+		strings.Join(sz, ","), strings.Join(verifJlsContentKinds, ","), reps, verifJlsSeed()))
+	var pp verifJlsPerP
 	for p := 2; p <= 16; p++ {
 		for _, c := range []int{1, 3} {
 			for _, s := range sizes {
-				for _, kind := range verifContentKinds {
+				for _, kind := range verifJlsContentKinds {
 					for v := 0; v < reps; v++ {
-						r := verifNewRNG(fmt.Sprintf("c14l/%d/%d/%dx%d/%s/%d", p, c, s.w, s.h, kind, v))
-						src := verifGenImage(kind, s.w, s.h, c, p, 0, r)
+						r := verifJlsNewRNG(fmt.Sprintf("c14l/%d/%d/%dx%d/%s/%d", p, c, s.w, s.h, kind, v))
+						src := verifJlsGenImage(kind, s.w, s.h, c, p, 0, r)
 						rep.cases++
 						pp.cases[p]++
 						var stream []byte
@@ -148,7 +148,7 @@ func TestVerif_C14_IndependentDecoderLossless(t *testing.T) {
 								}
 							}()
 							var err error
-							stream, err = Encode(verifPack(src, p), s.w, s.h, c, p)
+							stream, err = Encode(verifJlsPack(src, p), s.w, s.h, c, p)
 							if err != nil {
 								encWhy = fmt.Sprintf("encode_err=%q", err.Error())
 							}
@@ -159,7 +159,7 @@ func TestVerif_C14_IndependentDecoderLossless(t *testing.T) {
 						}
 						if why != "" {
 							pp.fails[p]++
-							rep.fail("P=%d comps=%d w=%d h=%d kind=%s variant=%d %s src=%s", p, c, s.w, s.h, kind, v, why, verifFmtSamples(src))
+							rep.fail("P=%d comps=%d w=%d h=%d kind=%s variant=%d %s src=%s", p, c, s.w, s.h, kind, v, why, verifJlsFmtSamples(src))
 						}
 					}
 				}
@@ -195,11 +195,11 @@ var verifH3Stream = []byte{
 }
 
 func TestVerif_C14_AnnexH3Vector(t *testing.T) {
-	rep := verifNewReport(t, "TestVerif_C14_AnnexH3Vector",
+	rep := verifJlsNewReport(t, "TestVerif_C14_AnnexH3Vector",
 		"T.87 Annex H.3 example (4x4, P=8, NEAR=0): lossless.Encode(image)==published stream; lossless.Decode(published stream)==image; vector reproduced from memory and self-validated by the independent decoder (1 vector, 2 checks)")
 	ind, err := verifT87Decode(verifH3Stream)
 	if err != nil || ind.W != 4 || ind.H != 4 || ind.NC != 1 || ind.P != 8 || ind.Near != 0 ||
-		verifFirstDiff(ind.Samples, verifH3Image) >= 0 || ind.TrailingBits >= 8 || ind.TrailingNonZero {
+		verifJlsFirstDiff(ind.Samples, verifH3Image) >= 0 || ind.TrailingBits >= 8 || ind.TrailingNonZero {
 		// the remembered vector is not trustworthy: do not blame the library
 		fmt.Printf("VERIF-NOTE TestVerif_C14_AnnexH3Vector: remembered H.3 vector failed self-validation (err=%v); vector checks skipped\n", err)
 		rep.domain += "; SKIPPED: remembered vector failed self-validation"
@@ -214,7 +214,7 @@ func TestVerif_C14_AnnexH3Vector(t *testing.T) {
 				rep.fail("check=encode panic=%q", fmt.Sprint(x))
 			}
 		}()
-		got, err := Encode(verifPack(verifH3Image, 8), 4, 4, 1, 8)
+		got, err := Encode(verifJlsPack(verifH3Image, 8), 4, 4, 1, 8)
 		if err != nil {
 			rep.fail("check=encode encode_err=%q", err.Error())
 			return
